@@ -790,11 +790,15 @@ impl BuiltInFunction {
                     ));
                 }
 
-                let (lhs, rhs) = s.split_at(
-                    (*mid)
-                        .try_into()
-                        .with_context(|| format!("`{mid}` is an invalid index (usize)"))?,
-                );
+                let mid_usize: usize = (*mid)
+                    .try_into()
+                    .with_context(|| format!("`{mid}` is an invalid index (usize)"))?;
+
+                if !s.is_char_boundary(mid_usize) {
+                    bail!("split index {mid_usize} is not on a character boundary of the string")
+                }
+
+                let (lhs, rhs) = s.split_at(mid_usize);
 
                 Ok((
                     Some(vector![
